@@ -86,3 +86,24 @@ Proof.
   rewrite (hess_scatter_distinct 3 2 0 1 0 2 1 2) by lia.
   unfold hess_spec, atom_of, ind, D. cbn [flat_map map app fold_right nth Nat.eqb andb]. cbn. lra.
 Qed.
+
+(* Whole-matrix form: for every system (shell list, atom assignment, ECP list, block oracle) and every matrix element
+   (gk, gl), each packed Hessian entry / each first-derivative entry the integrator returns is the sum over the ECPs of the
+   per-triple contributions characterised above. *)
+From LV Require Import Api.ApiWhole.
+Theorem C04_second_entry_sum : forall shell_l shell_atom ecp_atom natoms,
+  (forall s, nth s shell_atom 0 < natoms) -> (forall e, nth e ecp_atom 0 < natoms) ->
+  forall blk2 X Y p q gk gl, X <= Y -> Y < natoms -> p < 3 -> q < 3 -> (X = Y -> p <= q) ->
+    let '((s1, k), (s2, l)) := ordered shell_l gk gl in
+    second_entry ROps shell_l shell_atom ecp_atom natoms blk2 (packed natoms (slot_of X Y p q)) gk gl
+    = ApiWhole.Rsum (map (fun e => hess_contrib (nth s1 shell_atom 0) (nth s2 shell_atom 0) (nth e ecp_atom 0) (fun i => blk2 s1 s2 e i k l) X Y p q)
+                (seq 0 (length ecp_atom))).
+Proof. exact second_entry_sum. Qed.
+Print Assumptions C04_second_entry_sum.
+Theorem C04_first_entry_sum : forall shell_l shell_atom ecp_atom blk1 X q gk gl, q < 3 ->
+    let '((s1, k), (s2, l)) := ordered shell_l gk gl in
+    first_entry ROps shell_l shell_atom ecp_atom blk1 (3 * X + q) gk gl
+    = ApiWhole.Rsum (map (fun e => Rplus (Rplus (ind (Nat.eqb (nth s1 shell_atom 0) X) (blk1 s1 s2 e q k l)) (ind (Nat.eqb (nth s2 shell_atom 0) X) (blk1 s1 s2 e (q + 3) k l)))
+                                    (ind (Nat.eqb (nth e ecp_atom 0) X) (blk1 s1 s2 e (q + 6) k l))) (seq 0 (length ecp_atom))).
+Proof. exact first_entry_sum. Qed.
+Print Assumptions C04_first_entry_sum.
